@@ -12,6 +12,8 @@ seg <phys> <filesz> <memsz>
 bits file|mem <first> <last>   ->  > bits ok <hex>
 fset file|mem <idx>            ->  > fset ok <idx> | > fset nodata 0
 fclr file|mem <idx>            ->  > fclr ok <idx>
+maps <pfn> <first> <last> <start:end:regionpfn:cnt>...   split-file maps in any order: sorted window ends, find-set / find-clear
+                                                          at pfn, bits of [first,last]
 ```
 -/
 namespace Driver.Pfn
@@ -97,6 +99,20 @@ partial def loop (h : IO.FS.Stream) (s : St) : IO Unit := do
   | ["regions", msb, st, en, off, esz, hex] =>
     let rs := regionsFromBitmap (unhex hex.toList) (msb == "1") st.toNat! en.toNat! off.toNat! esz.toNat!
     IO.println ("> regions" ++ String.join (rs.map fun r => s!" {r.pfn}:{r.cnt}:{r.pos}")); loop h s
+  | "maps" :: q :: first :: last :: rest =>
+    let ms : List FileMap := rest.filterMap fun t =>
+      match (t.splitOn ":").map String.toNat! with
+      | [a, b, c, d] => some ⟨if d = 0 then [] else [⟨c, d, 0⟩], a, b⟩
+      | _ => none
+    let sm := sortMaps ms
+    let setS := match findMapped sm q.toNat! with
+      | some i => s!"{i}"
+      | none => "-"
+    let bitsS := match getMapBits sm first.toNat! last.toNat! with
+      | some b => toHex b
+      | none => "OOB"
+    IO.println ("> maps" ++ String.join (sm.map fun m => s!" {m.endPfn}") ++ s!" set={setS} clr={findUnmapped sm 100000 q.toNat!} bits={bitsS}")
+    loop h s
   | _ => loop h s      -- lines meant for the harness only
 
 def run (h : IO.FS.Stream) : IO Unit := loop h {}
